@@ -9,6 +9,8 @@ pub type AssetId = int;       // abstract (policy id, asset name) pair; spec-onl
 #[verifier::external_body] pub struct MultiAsset { _p: core::marker::PhantomData<u8> }
 impl MultiAsset {
     pub uninterp spec fn m(&self) -> Map<AssetId, nat>;
+    pub uninterp spec fn bytes_of(&self) -> Seq<u8>;
+    #[verifier::external_body] pub fn to_bytes(&self) -> (r: Vec<u8>) ensures r@ == self.bytes_of() { unimplemented!() }
 }
 impl Clone for MultiAsset { #[verifier::external_body] fn clone(&self) -> (r: Self) ensures r == *self { unimplemented!() } }
 pub open spec fn ma_qty(ma: MultiAsset, a: AssetId) -> nat { if ma.m().dom().contains(a) { ma.m()[a] } else { 0 } }
@@ -67,3 +69,17 @@ impl vstd::std_specs::convert::FromSpecImpl<u64> for BigNum {
     open spec fn obeys_from_spec() -> bool { true }
     open spec fn from_spec(v: u64) -> BigNum { BigNum(v) }
 }
+
+// Value's PartialOrd: component-wise partial order on (lovelace, every asset), absent asset = 0 (ASSUMED here; C14 states it)
+pub open spec fn value_le(a: Value, b: Value) -> bool { a.coin.0 <= b.coin.0 && forall|x: AssetId| qty(a, x) <= qty(b, x) }
+pub open spec fn value_view_eq(a: Value, b: Value) -> bool { a.coin.0 == b.coin.0 && forall|x: AssetId| qty(a, x) == qty(b, x) }
+impl vstd::std_specs::cmp::PartialOrdSpecImpl for Value {
+    open spec fn obeys_partial_cmp_spec() -> bool { true }
+    open spec fn partial_cmp_spec(&self, other: &Value) -> Option<core::cmp::Ordering> {
+        if value_view_eq(*self, *other) { Some(core::cmp::Ordering::Equal) }
+        else if value_le(*self, *other) { Some(core::cmp::Ordering::Less) }
+        else if value_le(*other, *self) { Some(core::cmp::Ordering::Greater) }
+        else { None }
+    }
+}
+impl PartialOrd for Value { #[verifier::external_body] fn partial_cmp(&self, o: &Value) -> (r: Option<core::cmp::Ordering>) { unimplemented!() } }
